@@ -27,6 +27,7 @@ inductive Path where
   | idx (p : Nat)        -- objects/pack/<p>.idx
   | ref (r : Nat)        -- HEAD or refs/…  (loose ref file)
   | packedRefs           -- packed-refs
+  | shallow              -- shallow (the graft points of a shallow clone)
   | plain (n : Nat)      -- index, config
   | tmp (n : Nat)        -- *.lock, tmp*  (never read as data)
   | other (n : Nat)
@@ -48,6 +49,7 @@ inductive Content where
   | refSym (r : Nat)                     -- "ref: <name>\n"
   | packed (m : List (Nat × Nat))        -- a complete packed-refs file: ref ↦ object
   | blob (k : Nat)                       -- complete other content (index, config), identified by hash
+  | shallowSet (l : List Nat)            -- a complete `shallow` file: the commits whose parents are cut off
   | junk                                 -- empty / half-written / unparsable
   | dir
   deriving DecidableEq, Repr
@@ -110,14 +112,25 @@ def rawRef (s : FS) (r : Nat) : Option RefV :=
   | some c => some (looseRef c)
   | none => packedLk (s .packedRefs) r
 
-/-- Reachability in the object graph `G` (object id ↦ ids it refers to; content-addressed, so a
-global function). -/
-inductive ReachFrom (G : Nat → List Nat) : Nat → Nat → Prop where
-  | refl (a : Nat) : ReachFrom G a a
-  | step {a b c : Nat} : b ∈ G a → ReachFrom G b c → ReachFrom G a c
+/-- Reachability in the object graph, as dulwich (and git) walk it in a possibly SHALLOW repository:
+`G` maps an object to the ids it refers to other than commit parents (tree, tag target, tree entries),
+`GP` maps a commit to its parents; both are content-addressed, hence global functions.  Parent edges
+are NOT followed out of a commit listed in the shallow set `S` (`Repo.get_parents`: `if commit_id in
+self.shallows: return []`). -/
+inductive ReachFrom (G GP : Nat → List Nat) (S : List Nat) : Nat → Nat → Prop where
+  | refl (a : Nat) : ReachFrom G GP S a a
+  | dep {a b c : Nat} : b ∈ G a → ReachFrom G GP S b c → ReachFrom G GP S a c
+  | par {a b c : Nat} : a ∉ S → b ∈ GP a → ReachFrom G GP S b c → ReachFrom G GP S a c
 
-def Reach (G : Nat → List Nat) (s : FS) (o : Nat) : Prop :=
-  ∃ r v, rawRef s r = some (.sha v) ∧ ReachFrom G v o
+def shalOf : Option Content → List Nat
+  | some (.shallowSet l) => l
+  | _ => []
+
+/-- the shallow set a file system denotes (`Repo.get_shallow`; no file = not shallow) -/
+def shal (s : FS) : List Nat := shalOf (s .shallow)
+
+def Reach (G GP : Nat → List Nat) (s : FS) (o : Nat) : Prop :=
+  ∃ r v, rawRef s r = some (.sha v) ∧ ReachFrom G GP (shal s) v o
 
 /-- Content that may legitimately sit at a data path (a half-written file at a data path is "taken
 for valid data").  Temp and `other` paths may hold anything. -/
@@ -128,6 +141,7 @@ def typedB : Path → Content → Bool
   | .ref _, .refSha _ => true
   | .ref _, .refSym _ => true
   | .packedRefs, .packed _ => true
+  | .shallow, .shallowSet _ => true
   | .plain _, .blob _ => true
   | .tmp _, _ => true
   | .other _, _ => true
@@ -144,8 +158,8 @@ def PairedAt (s : FS) (p : Nat) : Prop :=
 abbrev Known := List (Path × Option Content)
 
 structure Spec where
-  /-- the object graph of every object the scenario mentions -/
-  edges : List (Nat × List Nat)
+  /-- the object graph of every object the scenario mentions: id ↦ (non-parent references, parents) -/
+  edges : List (Nat × List Nat × List Nat)
   /-- facts about the start state: path ↦ content (`none` = absent).  First entry wins. -/
   known : Known
   /-- refs the operation intends to change, with the new raw value (`none` = deleted) -/
@@ -162,11 +176,11 @@ def lk : Known → Path → Option (Option Content)
 def Agrees (s : FS) (K : Known) : Prop := ∀ p c, lk K p = some c → s p = c
 
 /-- Precondition on the start state. -/
-structure Pre (spec : Spec) (G : Nat → List Nat) (s : FS) : Prop where
+structure Pre (spec : Spec) (G GP : Nat → List Nat) (s : FS) : Prop where
   agrees : Agrees s spec.known
-  graph : ∀ o ds, spec.edges.lookup o = some ds → G o = ds
-  consistent : ∀ o, Reach G s o → Vis s o
-  garbage : ∀ o, o ∈ spec.garbage → ¬ Reach G s o
+  graph : ∀ o ds ps, spec.edges.lookup o = some (ds, ps) → G o = ds ∧ GP o = ps
+  consistent : ∀ o, Reach G GP s o → Vis s o
+  garbage : ∀ o, o ∈ spec.garbage → ¬ Reach G GP s o
   typed : ∀ p c, s p = some c → typedB p c = true
   paired : ∀ p, PairedAt s p
 
@@ -184,13 +198,14 @@ instance (spec : Spec) (s0 s : FS) (n : Nat) : Decidable (PlainOldOrNew spec s0 
 
 /-- The property's words about the state `s` a crash leaves, `s0` being the state before the
 operation: every ref holds its old or its new value; every ref names an object that is visible
-together with everything it reaches; everything reachable before is still visible; index/config hold
+together with everything it reaches — history being cut at the commits the CURRENT `shallow` file
+lists —; everything reachable before is still visible; index/config hold
 the old or the new content; no half-written file sits at a data path; no pack is paired with the index
 of a different pack. -/
-structure Recoverable (spec : Spec) (G : Nat → List Nat) (s0 s : FS) : Prop where
+structure Recoverable (spec : Spec) (G GP : Nat → List Nat) (s0 s : FS) : Prop where
   refs : ∀ r, RefOldOrNew spec s0 s r
-  consistent : ∀ o, Reach G s o → Vis s o
-  kept : ∀ o, Reach G s0 o → Vis s o
+  consistent : ∀ o, Reach G GP s o → Vis s o
+  kept : ∀ o, Reach G GP s0 o → Vis s o
   plain : ∀ n, PlainOldOrNew spec s0 s n
   typed : ∀ p c, s p = some c → typedB p c = true
   paired : ∀ p, PairedAt s p
@@ -260,29 +275,40 @@ def mayChange (K K' : Known) : Path → Option (List Nat)
       | _, _ => none)
   | _ => some []
 
-def children (edges : List (Nat × List Nat)) (l : List Nat) : List Nat :=
-  l.flatMap (fun o => (edges.lookup o).getD [])
+/-- the shallow set according to what is known (`none`: the `shallow` path is not known) -/
+def shalK (K : Known) : Option (List Nat) := (lk K .shallow).map shalOf
+
+def children (edges : List (Nat × List Nat × List Nat)) (S : List Nat) (l : List Nat) : List Nat :=
+  l.flatMap (fun o => match edges.lookup o with
+    | some (ds, ps) => ds ++ (if S.contains o then [] else ps)
+    | none => [])
 
 def addNew (acc : List Nat) : List Nat → List Nat
   | [] => acc
   | x :: xs => if acc.contains x then addNew acc xs else addNew (acc ++ [x]) xs
 
-def closeN (edges : List (Nat × List Nat)) : Nat → List Nat → List Nat
+def closeN (edges : List (Nat × List Nat × List Nat)) (S : List Nat) : Nat → List Nat → List Nat
   | 0, l => l
-  | n + 1, l => closeN edges n (addNew l (children edges l))
+  | n + 1, l => closeN edges S n (addNew l (children edges S l))
 
-/-- Candidate closure of `v` in the spec's graph (any list would do: `closedOK` re-checks it). -/
-def cl (spec : Spec) (v : Nat) : List Nat := closeN spec.edges spec.edges.length [v]
+/-- Candidate closure of `v` in the spec's graph cut at `S` (any list would do: `closedOK` re-checks it). -/
+def cl (spec : Spec) (S : List Nat) (v : Nat) : List Nat := closeN spec.edges S spec.edges.length [v]
 
-def closedOK (spec : Spec) (v : Nat) : Bool :=
-  let c := cl spec v
-  c.contains v && c.all (fun o => match spec.edges.lookup o with
-    | some ds => ds.all c.contains
-    | none => false)
+def nodeOK (edges : List (Nat × List Nat × List Nat)) (S c : List Nat) (o : Nat) : Bool :=
+  match edges.lookup o with
+  | some (ds, ps) => ds.all c.contains && (S.contains o || ps.all c.contains)
+  | none => false
 
-/-- Everything `v` reaches is known to be visible (and none of it may be dropped). -/
+def closedOK (spec : Spec) (S : List Nat) (v : Nat) : Bool :=
+  let c := cl spec S v
+  c.contains v && c.all (nodeOK spec.edges S c)
+
+/-- Everything `v` reaches — history cut at the shallow set known in `K` — is known to be visible (and
+none of it may be dropped). -/
 def closedVis (spec : Spec) (K : Known) (v : Nat) : Bool :=
-  closedOK spec v && (cl spec v).all (fun o => visK K o && !spec.garbage.contains o)
+  match shalK K with
+  | some S => closedOK spec S v && (cl spec S v).all (fun o => visK K o && !spec.garbage.contains o)
+  | none => false
 
 def typedOK (K' : Known) (t : Path) : Bool :=
   match lk K' t with
@@ -307,6 +333,14 @@ def objsOK (spec : Spec) (K K' : Known) (t : Path) : Bool :=
   | some l => l.all (fun o => visK K' o || spec.garbage.contains o)
   | none => false
 
+/-- The shallow set may only lose a commit whose (newly uncut) history is already visible: new objects
+visible BEFORE the shallow set shrinks. -/
+def shallowOK (spec : Spec) (K K' : Known) : Path → Bool
+  | .shallow => (match shalK K, shalK K' with
+      | some a, some b => (a.filter (fun x => !b.contains x)).all (closedVis spec K')
+      | _, _ => false)
+  | _ => true
+
 def refOK (spec : Spec) (K0 K K' : Known) (r : Nat) : Bool :=
   match rawRefK K' r with
   | some v' =>
@@ -330,7 +364,8 @@ def plainOK (spec : Spec) (K0 K' : Known) : Path → Bool
 
 def safeStep (spec : Spec) (K0 K K' : Known) (c : Call) : Bool :=
   (touched c).all (fun t =>
-    typedOK K' t && objsOK spec K K' t && refsOK spec K0 K K' t && plainOK spec K0 K' t && pairOK K' t)
+    typedOK K' t && objsOK spec K K' t && refsOK spec K0 K K' t && plainOK spec K0 K' t && pairOK K' t &&
+    shallowOK spec K K' t)
 
 def go (spec : Spec) (K0 : Known) : Known → List Call → Bool
   | _, [] => true
@@ -379,6 +414,9 @@ def rawRefC (K : Known) (r : Nat) : Option RefV :=
       | some pc => packedLk pc r
       | none => none)
 
+/-- closed world: the shallow set of a listing -/
+def shalC (K : Known) : List Nat := shalOf ((lk K .shallow).getD none)
+
 /-- Closed-world `Recoverable`, as a Boolean, for the state `K` reached from the start listing `K0`:
 used by the driver to compare the model's verdict on each crash prefix with the real oracle. -/
 def recoverableK (spec : Spec) (K0 K : Known) : Bool :=
@@ -387,11 +425,11 @@ def recoverableK (spec : Spec) (K0 K : Known) : Bool :=
     let v := rawRefC K r
     (v == rawRefC K0 r || spec.newRefs.contains (r, v)) &&
     (match v with
-     | some (.sha o) => closedOK spec o && (cl spec o).all (visK K)
+     | some (.sha o) => closedOK spec (shalC K) o && (cl spec (shalC K) o).all (visK K)
      | some .bad => false
      | _ => true)) &&
   (refIds K0).all (fun r => match rawRefC K0 r with
-    | some (.sha o) => (cl spec o).all (visK K)
+    | some (.sha o) => (cl spec (shalC K0) o).all (visK K)
     | _ => true) &&
   K.all (fun e => match e.1 with
     | .plain n => (lk K (.plain n)).getD none == (lk K0 (.plain n)).getD none ||
@@ -407,11 +445,14 @@ def recoverableK (spec : Spec) (K0 K : Known) : Bool :=
   K.all (fun e => pairC K e.1)
 
 /-- The object graph a spec denotes (objects it does not list refer to nothing). -/
-def graphOf (spec : Spec) : Nat → List Nat := fun o => (spec.edges.lookup o).getD []
+def graphOf (spec : Spec) : Nat → List Nat := fun o => ((spec.edges.lookup o).getD ([], [])).1
+
+def parentsOf (spec : Spec) : Nat → List Nat := fun o => ((spec.edges.lookup o).getD ([], [])).2
 
 /-- Executable precondition check for the closed-world start state `toFS spec.known`: every ref's
 closure is visible and disjoint from `garbage`; data paths hold well-typed content. -/
 def preK (spec : Spec) : Bool :=
+  (shalK spec.known).isSome &&
   (refIds spec.known).all (fun r => match rawRefC spec.known r with
     | some (.sha v) => closedVis spec spec.known v
     | _ => true) &&
